@@ -320,6 +320,42 @@ pub fn lens(c: BoxedStrategy<char>) -> BoxedStrategy<String> {
     .boxed()
 }
 
+/// Shift characters by whole planes (c +/- k*0x10000) where the result is a code point assigned in Unicode 16.0.0:
+/// the inputs on which a table/memo keyed on the low 16 bits of a code point confuses two characters
+pub fn plane_alias(s: &str, k: u32, up: bool) -> String {
+    let d = db();
+    s.chars()
+        .map(|c| {
+            let v = c as u32;
+            let t = if up { v.checked_add(k * 0x10000) } else { v.checked_sub(k * 0x10000) };
+            match t.and_then(char::from_u32) {
+                Some(x) if (x as usize) < N && d.u16.listed[x as usize] => x,
+                _ => c,
+            }
+        })
+        .collect()
+}
+
+/// "words" of ASCII letters separated by one, two or three spaces (sometimes another Zs), up to ~300 bytes: the shape in
+/// which block-wise ASCII fast paths of the space rules go wrong
+pub fn ascii_words() -> BoxedStrategy<String> {
+    let sep = prop_oneof![6 => Just(" "), 3 => Just("  "), 1 => Just("   "), 1 => Just("\u{a0}"), 1 => Just(" \u{3000}")];
+    (vec((1usize..40, sep), 1..10), 0usize..8, any::<bool>())
+        .prop_map(|(words, lead, trail)| {
+            let mut s = " ".repeat(if lead < 2 { lead } else { 0 });
+            for (i, (n, sep)) in words.iter().enumerate() {
+                for k in 0..*n {
+                    s.push((b'a' + ((i * 7 + k) % 26) as u8) as char);
+                }
+                if i + 1 < words.len() || trail {
+                    s.push_str(sep);
+                }
+            }
+            s
+        })
+        .boxed()
+}
+
 /// Respell a generated string: sometimes fully decomposed (NFD / NFKD), sometimes one character decomposed,
 /// sometimes a composing pair of two STARTERS (two-part vowel signs, Hangul jamo) inserted
 pub fn respelled(base: BoxedStrategy<String>) -> BoxedStrategy<String> {
